@@ -275,6 +275,17 @@ class SymObjListT(Spec):
         return isinstance(v, _v().SymList)
 
 
+class SameAsT(Spec):
+    """the very object passed for another parameter (aliasing between arguments)"""
+
+    def __init__(self, ref):
+        self.ref = ref
+        self.label = f"same_as({ref})"
+
+    def make(self, I, name):
+        return None        # replaced by the other argument once all arguments exist (verify.make_run)
+
+
 class LockT(Spec):
     label = 'lock'
 
@@ -322,6 +333,7 @@ class T:
     custom = CustomT
     lock = LockT()
     symobjlist = SymObjListT
+    same_as = SameAsT
     symcoll = SymCollT
     symlist = SymListT()
 
